@@ -3053,11 +3053,13 @@ void SPxLPBase<R>::buildDualProblem(SPxLPBase<R>& dualLP, SPxRowId primalRowIds[
          break;
 
       case LPRowBase<R>::GREATER_EQUAL: // >= constraint
-         assert(lhs(i) > R(-infinity));
          primalRowIds[primalrowsidx] = rId(i); // setting the rowid for the primal row
          primalrowsidx++;
 
-         if(spxSense() == MINIMIZE)
+         // a free row (type() reports it as >= because it has no right-hand side) has the dual multiplier zero
+         if(lhs(i) <= R(-infinity))
+            dualcols.add(0.0, 0.0, rowVector(i), 0.0);
+         else if(spxSense() == MINIMIZE)
             dualcols.add(lhs(i), 0.0, rowVector(i), R(infinity));
          else
             dualcols.add(lhs(i), R(-infinity), rowVector(i), 0.0);
